@@ -118,58 +118,20 @@ theorem weak_remove {E : Env} {s s' : St} {o : Id} (hi : WeakInv E s) (h : remov
         refine ⟨⟨hi.base.coh, hi.base.kindS, fun x hx => hi.base.kindD x (List.mem_filter.mp hx).1⟩, hi.supS, ?_⟩
         intro l t x hx hrec
         exact hi.supD l t x (List.mem_filter.mp hx).1 hrec
-      · obtain ⟨r1, hr1, h⟩ := bind_ok.mp h
-        obtain ⟨r2, hr2, h⟩ := bind_ok.mp h
-        cases pure_ok.mp h
+      · cases h
         refine ⟨⟨hi.base.coh, hi.base.kindS, fun x hx => hi.base.kindD x (List.mem_filter.mp hx).1⟩, hi.supS, ?_⟩
         intro l t x hx hrec
         obtain ⟨h1, h2⟩ := List.mem_filter.mp hx
         have hne : x ≠ o := of_decide_eq_true h2
-        show memD (unregCenter E o (s.fwd o) r2) l t x
-        rw [(unregCenter_spec E o _ _).2, unregPred_spec E o _ _ _ hr2, (unregInit_spec E o _ _ _ hr1).2]
-        exact ⟨⟨⟨hi.supD l t x h1 hrec, fun h3 => hne h3.1⟩, fun h3 => hne h3.1⟩, fun h3 => hne h3.1⟩
+        show memD (unregCenter E o (s.fwd o) (unregShape E o (s.fwd o) s.dreg)) l t x
+        rw [(unregCenter_spec E o _ _).2, (unregShape_spec E o _ _).2]
+        exact ⟨⟨hi.supD l t x h1 hrec, fun h3 => hne h3.1⟩, fun h3 => hne h3.1⟩
     · cases h; exact hi
 
-/-- `remove_obstacle` never fails — under the invariant of ALL histories -/
-theorem remove_total_weak {E : Env} {s : St} (hw : WfEnv E) (hi : WeakInv E s) (o : Id) :
-    ∃ s', remove E s o = .ok s' := by
-  unfold remove
-  split
-  · exact ⟨_, rfl⟩
-  · split
-    · next hod =>
-      split
-      · exact ⟨_, rfl⟩
-      · have h1 : ∃ r1, unregInit E o (s.fwd o) s.dreg = .ok r1 := by
-          unfold unregInit
-          split
-          · exact ⟨_, rfl⟩
-          · next ids hs =>
-            have e := (hi.base.coh o).initShape ids hs
-            apply unregDyn_ok
-            intro l hl
-            refine ⟨effShp_sub hw (e ▸ hl), ?_⟩
-            obtain ⟨st, h3, _⟩ := hi.supD l (E.t0 o) o hod (Or.inl ⟨rfl, ids, hs, hl⟩)
-            rw [h3]; rfl
-        obtain ⟨r1, hr1⟩ := h1
-        have h2 : ∃ r2, unregPred E o (s.fwd o) r1 = .ok r2 := by
-          unfold unregPred
-          split
-          · next hk =>
-            split
-            · exact ⟨_, rfl⟩
-            · next d hd =>
-              apply unregItems_ok
-              intro t ids hm l hl
-              obtain ⟨e, _, _⟩ := (hi.base.coh o).predShape d hd t ids hm
-              refine ⟨hw.shp_sub o t l (e ▸ hl), ?_⟩
-              rw [(unregInit_spec E o _ _ _ hr1).1]
-              obtain ⟨st, h3, _⟩ := hi.supD l t o hod (Or.inr ⟨hk, d, hd, ids, hm, hl⟩)
-              rw [h3]; rfl
-          · exact ⟨_, rfl⟩
-        obtain ⟨r2, hr2⟩ := h2
-        exact ⟨_, by rw [hr1]; simp only [bind, Except.bind]; rw [hr2]; rfl⟩
-    · exact ⟨_, rfl⟩
+/-- `remove_obstacle` never fails (kept under this name for the users of the invariant of ALL histories; since d431666 it
+    needs no invariant at all: `remove_total`) -/
+theorem remove_total_weak {E : Env} {s : St} (_hw : WfEnv E) (_hi : WeakInv E s) (o : Id) :
+    ∃ s', remove E s o = .ok s' := remove_total E s o
 
 /-! ### assignments, `use_center_only` either way -/
 
@@ -766,22 +728,14 @@ theorem nodup_remove {E : Env} {s s' : St} {o : Id} (hn : RegNodup s) (h : remov
   · split at h
     · split at h
       · cases h; exact hn
-      · obtain ⟨r1, hr1, h⟩ := bind_ok.mp h
-        obtain ⟨r2, hr2, h⟩ := bind_ok.mp h
-        cases pure_ok.mp h
+      · cases h
         refine ⟨hn.1, ?_⟩
-        have h1 : DN r1 := by
-          unfold unregInit at hr1
-          split at hr1
-          · cases hr1; exact hn.2
-          · exact dn_unregDyn E o _ _ _ _ hn.2 hr1
         apply dn_discardItems
-        unfold unregPred at hr2
-        split at hr2
-        · split at hr2
-          · cases hr2; exact h1
-          · exact dn_unregItems E o _ _ _ h1 hr2
-        · cases hr2; exact h1
+        show DN (unregShape E o (s.fwd o) s.dreg)
+        unfold unregShape
+        split
+        · exact dn_discardItems E o _ _ (dn_discardDyn E o _ _ _ hn.2)
+        · exact dn_discardDyn E o _ _ _ hn.2
     · cases h; exact hn
 
 theorem nodup_assignDynAt {E : Env} {co : Bool} {s s' : St} {o : Id} {t : T} (hn : RegNodup s)
@@ -984,20 +938,17 @@ theorem sub_remove {E : Env} {s s' : St} {o : Id} (hw : WfEnv E) (hi : SubInv E 
         rcases hl with hl | hl
         · exact hmem.2 hl
         · rw [hl] at hmem; cases hmem.1
-      · obtain ⟨r1, hr1, h⟩ := bind_ok.mp h
-        obtain ⟨r2, hr2, h⟩ := bind_ok.mp h
-        cases pure_ok.mp h
+      · cases h
         refine ⟨hi.subS, ?_⟩
         intro l t x hx
-        have hx' : memD (unregCenter E o (s.fwd o) r2) l t x := hx
-        rw [(unregCenter_spec E o _ _).2, unregPred_spec E o _ _ _ hr2, (unregInit_spec E o _ _ _ hr1).2] at hx'
-        obtain ⟨⟨⟨h1, n1⟩, n2⟩, n3⟩ := hx'
+        have hx' : memD (unregCenter E o (s.fwd o) (unregShape E o (s.fwd o) s.dreg)) l t x := hx
+        rw [(unregCenter_spec E o _ _).2, (unregShape_spec E o _ _).2] at hx'
+        obtain ⟨⟨h1, n1⟩, n3⟩ := hx'
         obtain ⟨h3, h4⟩ := hi.subD l t x h1
         refine ⟨List.mem_filter.mpr ⟨h3, decide_eq_true ?_⟩, h4⟩
         rintro rfl
-        rcases h4 with (⟨e, h5⟩ | ⟨hk, h5⟩) | h5
-        · exact n1 ⟨rfl, e, h5⟩
-        · exact n2 ⟨rfl, hk, h5⟩
+        rcases h4 with h5 | h5
+        · exact n1 ⟨rfl, hw.shp_sub _ _ _ (RecShapeD.sound (hb.coh x) h5).1, h5⟩
         · exact n3 ⟨rfl, hw.cen_sub _ _ _ (RecCenD.sound (hb.coh x) h5).1, h5⟩
     · cases h; exact hi
 
